@@ -24,7 +24,10 @@ MERGE_TWINS = [
     (("or", ("parse", 'platform_release < "5.10"'), ("parse", 'platform_release > "5.10"')), ("or", ("parse", 'platform_release < "5.10.0"'), ("parse", 'platform_release > "5.10.0"'))),
     (("and", ("parse", 'python_full_version >= "3.8"'), ("parse", 'python_full_version < "3.9"')), ("and", ("parse", 'python_full_version >= "3.8.0"'), ("parse", 'python_full_version < "3.9.0"'))),
     (("or", ("parse", 'python_full_version < "3.6"'), ("parse", 'python_full_version >= "3.7"')), ("or", ("parse", 'python_full_version < "3.6.0"'), ("parse", 'python_full_version >= "3.7.0"'))),
-    (("and", ("parse", 'os_name == "a" or os_name == "b"'), ("parse", 'sys_platform == "x"')), ("and", ("parse", 'os_name == "b" or os_name == "a"'), ("parse", 'sys_platform == "x"'))),
+    (("and", ("parse", 'os_name == "a" or os_name == "b"'), ("parse", 'python_version >= "3.8" or sys_platform == "y"')),
+     ("and", ("parse", 'os_name == "b" or os_name == "a"'), ("parse", 'python_version >= "3.8" or sys_platform == "y"'))),
+    (("or", ("parse", 'os_name != "a" and os_name != "b"'), ("parse", 'python_version >= "3.8" and sys_platform == "y"')),
+     ("or", ("parse", 'os_name != "b" and os_name != "a"'), ("parse", 'python_version >= "3.8" and sys_platform == "y"'))),
 ]
 TWINS = [('python_version >= "3.8"', '"3.8" <= python_version'), ('python_version >= "3.10"', 'python_version >= "3.10.0"'),
          ('python_full_version >= "3.10"', 'python_full_version >= "3.10.0"'), ('os_name == "nt"', '"nt" == os_name'),
